@@ -399,6 +399,100 @@ m("referrers-skip-client-filter", ["C15"],
 m("oci-tags-ignore-last", ["C15"],
   ("content/oci/readonlyoci.go", """		if last != "" && tag <= last {""", """		if last != "" && tag < last {"""))
 
+# ---- auth / retry (C16, C17) ----
+m("auth-cache-key-without-host", ["C16"],
+  ("registry/remote/auth/cache.go", """	entry, ok := cc.cache.Load(registry)
+	if !ok {
+		return SchemeUnknown, errdef.ErrNotFound
+	}""", """	entry, ok := cc.cache.Load("")
+	if !ok {
+		return SchemeUnknown, errdef.ErrNotFound
+	}"""),
+  ("registry/remote/auth/cache.go", """	entryValue, ok := cc.cache.Load(registry)
+	if !ok {
+		return "", errdef.ErrNotFound
+	}""", """	entryValue, ok := cc.cache.Load("")
+	if !ok {
+		return "", errdef.ErrNotFound
+	}"""),
+  ("registry/remote/auth/cache.go", """	entryValue, exists := cc.cache.LoadOrStore(registry, newEntry)""", """	entryValue, exists := cc.cache.LoadOrStore("", newEntry)"""),
+  ("registry/remote/auth/cache.go", """		cc.cache.Store(registry, entry)""", """		cc.cache.Store("", entry)"""))
+m("auth-credential-ignores-host", ["C16"],
+  ("registry/remote/auth/client.go", """	return c.Credential(ctx, reg)
+}""", """	if cred, err := c.Credential(ctx, reg); err != nil || cred != EmptyCredential {
+		return cred, err
+	}
+	// "helpful" fallback: try the credential of a well-known host
+	return c.Credential(ctx, "reg-a.example")
+}"""))
+m("auth-no-coalescing", ["C16"],
+  ("registry/remote/auth/cache.go", """	statusValue, _ := cc.status.LoadOrStore(statusKey, syncutil.NewOnce())""", """	statusValue, _ := cc.status.LoadOrStore(statusKey, syncutil.NewOnce())
+	statusValue = syncutil.NewOnce()"""))
+m("auth-token-key-ignores-scopes", ["C16"],
+  ("registry/remote/auth/client.go", """			attemptedKey = strings.Join(scopes, " ")
+			token, err := cache.GetToken(ctx, host, SchemeBearer, attemptedKey)""", """			attemptedKey = strings.Join(scopes, " ")
+			token, err := cache.GetToken(ctx, host, SchemeBearer, "")"""),
+  ("registry/remote/auth/client.go", """		token, err := cache.Set(ctx, host, SchemeBearer, key, func(ctx context.Context) (string, error) {""", """		token, err := cache.Set(ctx, host, SchemeBearer, "", func(ctx context.Context) (string, error) {"""))
+m("auth-cleanscopes-no-wildcard-absorb", ["C16"],
+  ("registry/remote/auth/scope.go", """				if action == "*" {
+					actions = []string{"*"}
+					break
+				}""", """				if action == "**" {
+					actions = []string{"*"}
+					break
+				}"""))
+m("auth-forward-authorization-on-redirect", ["C16"],
+  ("registry/remote/auth/client.go", """	for key, values := range c.Header {
+		req.Header[key] = append(req.Header[key], values...)
+	}
+	return c.client().Do(req)""", """	for key, values := range c.Header {
+		req.Header[key] = append(req.Header[key], values...)
+	}
+	if a := req.Header.Get("Authorization"); a != "" {
+		req.Header.Set("X-Forwarded-Authorization", a)
+	}
+	return c.client().Do(req)"""))
+
+m("retry-no-body-rewind", ["C17"],
+  ("registry/remote/retry/client.go", """			body, err := req.GetBody()
+			if err != nil {
+				// failed to rewind the body, so we can't retry
+				return resp, respErr
+			}
+			req.Body = body""", """			_ = req.GetBody"""))
+m("retry-one-shot-bodies", ["C17"],
+  ("registry/remote/retry/client.go", """			if req.GetBody == nil {
+				// body can't be rewound, so we can't retry
+				return resp, respErr
+			}""", """			if req.GetBody == nil {
+				req.GetBody = func() (io.ReadCloser, error) { return req.Body, nil }
+			}"""))
+m("retry-ignore-maxretry", ["C17"],
+  ("registry/remote/retry/policy.go", """	if attempt >= p.MaxRetry {
+		return -1, nil
+	}""", """	if attempt >= p.MaxRetry+2 {
+		return -1, nil
+	}"""))
+m("retry-no-clamp-maxwait", ["C17"],
+  ("registry/remote/retry/policy.go", """	if backoff > p.MaxWait {
+		backoff = p.MaxWait
+	}""", ""))
+m("retry-ignore-ctx-during-pause", ["C17"],
+  ("registry/remote/retry/client.go", """		select {
+		case <-ctx.Done():
+			timer.Stop()
+			return nil, ctx.Err()
+		case <-timer.C:
+		}""", """		_ = ctx
+		<-timer.C"""))
+m("auth-no-body-rewind", ["C17"],
+  ("registry/remote/auth/client.go", """	if err := rewindRequestBody(req); err != nil {
+		return nil, err
+	}
+	return c.send(req)""", """	return c.send(req)"""))
+m("retry-ignore-retry-after", ["C17"],
+  ("registry/remote/retry/policy.go", """				if retryAfter, _ := strconv.ParseInt(v, 10, 64); retryAfter > 0 {""", """				if retryAfter, _ := strconv.ParseInt(v, 10, 64); retryAfter > 1000 {"""))
+
 
 def sh(cmd, **kw):
     return subprocess.run(cmd, **kw)
